@@ -113,6 +113,15 @@ func (h volumesResourceHandler) BuildDataset(query common.RepositoryHandlerBuild
 				subQuery = subQuery.Where("date <= ?", query.PIT)
 			}
 
+			// without the account metadata history nothing fills accounts_metadata: use
+			// the current metadata, as the accounts and aggregated balances handlers do
+			if !h.store.ledger.HasFeature(features.FeatureAccountMetadataHistory, "SYNC") {
+				subQuery = h.store.newScopedSelect().
+					TableExpr(h.store.GetPrefixedRelationName("accounts")).
+					ColumnExpr("metadata").
+					Where("accounts.address = moves.accounts_address")
+			}
+
 			// Stands in an empty object where the join found none, for the reason
 			// metadataOrEmpty documents.
 			selectVolumes = selectVolumes.
